@@ -26,9 +26,9 @@ import (
 // repaired behaviour.
 const (
 	// compaction-spins-forever-on-undecodable-block: corrupt only blocks that are never decoded
-	vC09ExcludeDecodeSpin = true
+	vC09ExcludeDecodeSpin = false
 	// aborted-snapshot-left-tmp: never fire DisableSnapshots at the last block of a snapshot
-	vC09ExcludeSnapshotLastBlockAbort = true
+	vC09ExcludeSnapshotLastBlockAbort = false
 )
 
 // vC09Hook is the per-case callback behind the process-wide verifhook.
